@@ -68,14 +68,31 @@ func ParseRegistrySource(given string) (RegistrySource, error) {
 	// leaves an empty label. The canonical string of such a package would
 	// not parse back to it (or would read as a different kind of address),
 	// so we require that it does.
-	if again, err := regaddr.ParseModuleSource(pkgOnlyAddr.Package.String()); err != nil || again.Package != pkgOnlyAddr.Package {
-		return RegistrySource{}, fmt.Errorf("invalid module registry hostname %q", pkgOnlyAddr.Package.Host.ForDisplay())
+	canonical, ok := modulePackageString(pkgOnlyAddr.Package)
+	if !ok {
+		return RegistrySource{}, fmt.Errorf("invalid module registry hostname %q", string(pkgOnlyAddr.Package.Host))
+	}
+	if again, err := regaddr.ParseModuleSource(canonical); err != nil || again.Package != pkgOnlyAddr.Package {
+		return RegistrySource{}, fmt.Errorf("invalid module registry hostname %q", string(pkgOnlyAddr.Package.Host))
 	}
 
 	return RegistrySource{
 		pkg:     pkgOnlyAddr.Package,
 		subPath: subPath,
 	}, nil
+}
+
+// modulePackageString returns pkg.String(), or false if the hostname cannot be
+// converted to its display form: svchost.Hostname.ForDisplay panics for some
+// hostnames that ForComparison accepted (for example a label that is too long
+// once decoded), and String calls it.
+func modulePackageString(pkg regaddr.ModulePackage) (s string, ok bool) {
+	defer func() {
+		if r := recover(); r != nil {
+			s, ok = "", false
+		}
+	}()
+	return pkg.String(), true
 }
 
 // ParseRegistryPackage parses the given string as a registry package address,
